@@ -67,11 +67,9 @@ fn lex_step(input: &'static str, mask: u32, canary: bool) {
     match &*r {
         Some(Ok(tok)) => {
             assert!(span_ok(len, mask, &tok.span), "token span inside the input on char boundaries");
-            kani::cover!(true, "token");
         }
         Some(Err(e)) => {
             assert!(span_ok(len, mask, &e.span), "error span inside the input on char boundaries");
-            kani::cover!(true, "hard error");
         }
         None => assert!(false, "the tokenizer always yields (EOF token at the end)"),
     }
@@ -92,6 +90,7 @@ fn lex_step(input: &'static str, mask: u32, canary: bool) {
             assert!(rest < len, "a token consumes input");
         }
     }
+    kani::cover!(true, "step completed");
     if canary {
         assert!(false, "canary");
     }
@@ -130,71 +129,81 @@ macro_rules! lex {
     };
 }
 
-// ---- any first character (covers identifiers, digits, operators, delimiters, whitespace and the
-// ---- "unexpected character" path), followed by two arbitrary ASCII bytes
-//@ tier=quick cap=900 funcs=Tokenizer::next,Tokenizer::identifier,Tokenizer::operator,Tokenizer::numeric_literal,CharLocations::next,Location::shift bound=3_arbitrary_ASCII_bytes_first_not_digit_or_minus
-lex!(c09_tok_ascii3, 8, [1, 1, 1], {
-    // numeric literals (float parsing of symbolic digits) have their own harness
-    let a = ascii();
-    kani::assume(!(a >= b'0' && a <= b'9') && a != b'-');
-    text![a, ascii(), ascii()]
-});
-//@ tier=thorough cap=1800 mem=14 funcs=Tokenizer::numeric_literal,i64_from_hex bound=digit_or_minus_then_3_arbitrary_ASCII_bytes
-lex!(c09_tok_num, 8, [1, 1, 1, 1], {
-    let a = ascii();
-    kani::assume((a >= b'0' && a <= b'9') || a == b'-');
-    text![a, ascii(), ascii(), ascii()]
-});
-//@ tier=quick cap=900 funcs=Tokenizer::next,Tokenizer::skip_char,StrSuffix::restore_char bound=any_2_byte_char_then_2_ASCII_bytes
-lex!(c09_tok_first_w2, 8, [2, 1, 1], { text![lead2(), cont(), ascii(), ascii()] });
-//@ tier=quick cap=900 funcs=Tokenizer::next,StrSuffix::restore_char bound=any_3_byte_char_then_1_ASCII_byte
-lex!(c09_tok_first_w3, 8, [3, 1], { let (l, c) = lead3(); text![l, c, cont(), ascii()] });
-//@ tier=thorough cap=1800 funcs=Tokenizer::next,StrSuffix::restore_char bound=any_4_byte_char_then_1_ASCII_byte
-lex!(c09_tok_first_w4, 8, [4, 1], { let (l, c) = lead4(); text![l, c, cont(), cont(), ascii()] });
-//@ tier=thorough cap=1800 funcs=Tokenizer::next bound=ASCII_byte_then_any_2_byte_char_then_ASCII
-lex!(c09_tok_second_w2, 8, [1, 2, 1], { text![ascii(), lead2(), cont(), ascii()] });
-//@ tier=thorough cap=1800 funcs=Tokenizer::next bound=ASCII_byte_then_any_3_byte_char_then_ASCII
-lex!(c09_tok_second_w3, 8, [1, 3, 1], { let (l, c) = lead3(); text![ascii(), l, c, cont(), ascii()] });
+// ---- Structure.  `Tokenizer::next` is a dispatch loop over the first byte.  CBMC explores every
+// ---- match arm whose guard it cannot refute syntactically, in every unwinding of that loop, so a
+// ---- SYMBOLIC first byte costs (#iterations x all scanners): measured, no class-level harness
+// ---- (delimiters, identifier starts, operator bytes, any 2/3/4-byte lead) finished in 20 min or
+// ---- under 15 GB, not even with the nine scanner methods stubbed out.  Every harness below
+// ---- therefore fixes the FIRST byte (one harness per scanner and representative first byte; the
+// ---- dispatch then constant-folds to one arm) and leaves all following bytes symbolic.  Scanners
+// ---- that `continue` the loop (plain comments, unexpected characters) are followed by a concrete
+// ---- delimiter so that the second iteration folds too: after `continue` the tokenizer is a fresh
+// ---- tokenizer on the remaining suffix, which the other harnesses cover.
+// ---- Not decided (measured: no verdict in 10-30 min / 15 GB each; listed as uncovered in
+// ---- DESIGN.md 6): the `#` arms (`shebang_line` ends in `str::trim_end`: reverse UTF-8 decoding
+// ---- plus the Unicode white-space table); `numeric_literal` (`str::parse::<f64>`, i.e. dec2flt on
+// ---- symbolic digits, is reachable from every digit and from `-`); string literals, comments
+// ---- (`str::trim`) and the unexpected-character recovery in `next` itself: after `skip_char` the
+// ---- read position depends on a decoded length, so the next byte -- and with it the whole
+// ---- dispatch -- is symbolic again.
+fn h_punct(b: u8) -> bool {
+    matches!(b, b',' | b'\\' | b'{' | b'[' | b'(' | b'}' | b']' | b')' | b'?')
+}
+
+//@ tier=quick cap=900 mem=12 funcs=Tokenizer::next,Tokenizer::next_loc bound=comma_then_any_3_byte_char
+lex!(c09_tok_punct_w3, 8, [1, 3], { let (l, c) = lead3(); text![b',', l, c, cont()] });
+
+// ---- identifiers and keywords
+macro_rules! ident {
+    ($name: ident, $first: literal) => {
+        lex!($name, 8, [1, 1, 1], { text![$first, ascii(), ascii()] });
+    };
+}
+//@ tier=quick cap=900 mem=12 funcs=Tokenizer::identifier,Tokenizer::take_until,Tokenizer::slice bound=a_then_2_arbitrary_ASCII_bytes
+ident!(c09_tok_ident_a, b'a');
+//@ tier=quick cap=900 mem=12 funcs=Tokenizer::identifier,Tokenizer::take_until,Tokenizer::slice bound=i_then_2_arbitrary_ASCII_bytes(keywords_if_in)
+ident!(c09_tok_ident_i, b'i');
+//@ tier=thorough cap=1800 mem=15 funcs=Tokenizer::identifier bound=underscore_then_2_arbitrary_ASCII_bytes
+ident!(c09_tok_ident_us, b'_');
+//@ tier=thorough cap=1800 mem=15 funcs=Tokenizer::identifier bound=Z_then_2_arbitrary_ASCII_bytes
+ident!(c09_tok_ident_Z, b'Z');
+//@ tier=thorough cap=1800 mem=15 funcs=Tokenizer::identifier bound=d_then_2_arbitrary_ASCII_bytes(keyword_do)
+ident!(c09_tok_ident_d, b'd');
+//@ tier=thorough cap=1800 mem=15 funcs=Tokenizer::identifier bound=l_then_3_arbitrary_ASCII_bytes(keyword_let)
+lex!(c09_tok_ident_l4, 8, [1, 1, 1, 1], { text![b'l', ascii(), ascii(), ascii()] });
+//@ tier=quick cap=900 mem=12 funcs=Tokenizer::identifier,Tokenizer::take_until,Tokenizer::slice bound=a_ASCII_then_any_2_byte_char
+lex!(c09_tok_ident_w2, 8, [1, 1, 2], { text![b'a', ascii(), lead2(), cont()] });
+//@ tier=thorough cap=1800 mem=15 funcs=Tokenizer::identifier,Tokenizer::take_until,Tokenizer::slice bound=a_then_any_3_byte_char
+lex!(c09_tok_ident_w3, 8, [1, 3], { let (l, c) = lead3(); text![b'a', l, c, cont()] });
+
+// ---- operators
+//@ tier=quick cap=900 mem=12 funcs=Tokenizer::operator,Tokenizer::take_until,Tokenizer::slice bound=plus_then_2_arbitrary_ASCII_bytes
+lex!(c09_tok_op_plus, 8, [1, 1, 1], { text![b'+', ascii(), ascii()] });
+//@ tier=thorough cap=1800 mem=15 funcs=Tokenizer::operator bound=dot_then_2_arbitrary_ASCII_bytes
+lex!(c09_tok_op_dot, 8, [1, 1, 1], { text![b'.', ascii(), ascii()] });
+//@ tier=thorough cap=1800 mem=15 funcs=Tokenizer::operator bound=plus_then_any_2_byte_char_then_ASCII
+lex!(c09_tok_op_w2, 8, [1, 2, 1], { text![b'+', lead2(), cont(), ascii()] });
 
 // ---- character literals
-//@ tier=quick cap=900 funcs=Tokenizer::char_literal,Tokenizer::escape_code bound=quote_then_3_arbitrary_ASCII_bytes
+//@ tier=thorough cap=1800 mem=15 funcs=Tokenizer::char_literal,Tokenizer::escape_code bound=quote_then_3_arbitrary_ASCII_bytes
 lex!(c09_tok_char_ascii, 8, [1, 1, 1, 1], { text![b'\'', ascii(), ascii(), ascii()] });
-//@ tier=quick cap=900 funcs=Tokenizer::char_literal,StrSuffix::restore_char bound=quote_then_any_2_byte_char_then_ASCII
+//@ tier=thorough cap=1800 mem=15 funcs=Tokenizer::char_literal,StrSuffix::restore_char bound=quote_then_any_2_byte_char_then_ASCII
 lex!(c09_tok_char_w2, 8, [1, 2, 1], { text![b'\'', lead2(), cont(), ascii()] });
-//@ tier=quick cap=900 funcs=Tokenizer::char_literal,StrSuffix::restore_char bound=quote_then_any_3_byte_char_then_ASCII
+//@ tier=quick cap=900 mem=12 funcs=Tokenizer::char_literal,StrSuffix::restore_char bound=quote_then_any_3_byte_char_then_ASCII
 lex!(c09_tok_char_w3, 8, [1, 3, 1], { let (l, c) = lead3(); text![b'\'', l, c, cont(), ascii()] });
-//@ tier=thorough cap=1800 funcs=Tokenizer::char_literal,StrSuffix::restore_char bound=quote_then_any_4_byte_char_then_ASCII
-lex!(c09_tok_char_w4, 8, [1, 4, 1], { let (l, c) = lead4(); text![b'\'', l, c, cont(), cont(), ascii()] });
-//@ tier=thorough cap=1800 funcs=Tokenizer::char_literal bound=quote_ASCII_then_any_2_byte_char
-lex!(c09_tok_char_then_w2, 8, [1, 1, 2], { text![b'\'', ascii(), lead2(), cont()] });
-//@ tier=thorough cap=1800 funcs=Tokenizer::char_literal,Tokenizer::escape_code bound=quote_backslash_then_any_2_byte_char_then_ASCII
+//@ tier=thorough cap=1800 mem=15 funcs=Tokenizer::char_literal,Tokenizer::escape_code bound=quote_backslash_then_any_2_byte_char_then_ASCII
 lex!(c09_tok_char_escape_w2, 8, [1, 1, 2, 1], { text![b'\'', b'\\', lead2(), cont(), ascii()] });
-//@ tier=thorough cap=1800 funcs=Tokenizer::char_literal,Tokenizer::escape_code bound=quote_backslash_then_any_3_byte_char_then_ASCII
+//@ tier=thorough cap=1800 mem=15 funcs=Tokenizer::char_literal,Tokenizer::escape_code bound=quote_backslash_then_any_3_byte_char_then_ASCII
 lex!(c09_tok_char_escape_w3, 8, [1, 1, 3, 1], { let (l, c) = lead3(); text![b'\'', b'\\', l, c, cont(), ascii()] });
 
-// ---- string literals
-//@ tier=quick cap=900 funcs=Tokenizer::string_literal,Tokenizer::escape_code,Tokenizer::take_until,Tokenizer::slice bound=dquote_then_3_arbitrary_ASCII_bytes
-lex!(c09_tok_str_ascii, 8, [1, 1, 1, 1], { text![b'"', ascii(), ascii(), ascii()] });
-//@ tier=quick cap=900 funcs=Tokenizer::string_literal,Tokenizer::escape_code,Tokenizer::slice bound=dquote_backslash_then_any_2_byte_char_then_ASCII
-lex!(c09_tok_str_escape_w2, 8, [1, 1, 2, 1], { text![b'"', b'\\', lead2(), cont(), ascii()] });
-//@ tier=thorough cap=1800 funcs=Tokenizer::string_literal,Tokenizer::escape_code,Tokenizer::slice bound=dquote_backslash_then_any_3_byte_char_then_ASCII
-lex!(c09_tok_str_escape_w3, 8, [1, 1, 3, 1], { let (l, c) = lead3(); text![b'"', b'\\', l, c, cont(), ascii()] });
-//@ tier=thorough cap=1800 funcs=Tokenizer::string_literal bound=dquote_then_any_2_byte_char_then_ASCII
-lex!(c09_tok_str_w2, 8, [1, 2, 1], { text![b'"', lead2(), cont(), ascii()] });
 
-// ---- raw strings and comments
-//@ tier=thorough cap=1800 funcs=Tokenizer::raw_string_literal bound=r_then_3_arbitrary_ASCII_bytes
-lex!(c09_tok_raw_ascii, 8, [1, 1, 1, 1], { text![b'r', ascii(), ascii(), ascii()] });
-//@ tier=thorough cap=1800 funcs=Tokenizer::line_comment,Tokenizer::block_comment bound=slash_then_3_arbitrary_ASCII_bytes
-lex!(c09_tok_slash_ascii, 8, [1, 1, 1, 1], { text![b'/', ascii(), ascii(), ascii()] });
-//@ tier=thorough cap=1800 funcs=Tokenizer::line_comment,Tokenizer::block_comment bound=slash_ASCII_then_any_2_byte_char_then_ASCII
-lex!(c09_tok_slash_w2, 8, [1, 1, 2, 1], { text![b'/', ascii(), lead2(), cont(), ascii()] });
-//@ tier=thorough cap=1800 funcs=Tokenizer::shebang_line bound=hash_then_3_arbitrary_ASCII_bytes
-lex!(c09_tok_hash_ascii, 8, [1, 1, 1, 1], { text![b'#', ascii(), ascii(), ascii()] });
+// ---- raw strings
+//@ tier=quick cap=900 mem=12 funcs=Tokenizer::raw_string_literal bound=r_dquote_then_2_arbitrary_ASCII_bytes
+lex!(c09_tok_raw_ascii, 8, [1, 1, 1, 1], { text![b'r', b'"', ascii(), ascii()] });
 
-//@ tier=quick cap=900
+//@ tier=quick cap=900 mem=12
 #[kani::proof]
 #[kani::unwind(8)]
 fn c09_tok_canary() {
-    lex_step(text![b'\'', ascii(), ascii(), ascii()], 0b11111, true);
+    lex_step(text![b'a', ascii(), ascii()], 0b1111, true);
 }
